@@ -3,6 +3,7 @@
 -/
 import HLV.Logic.Deadlock
 import HLV.Logic.Order
+import HLV.Logic.ParSound
 import HLV.Props.HoldFamily
 namespace HLV
 
@@ -11,9 +12,9 @@ no key and no hold; the lock table is all free) -/
 def initSys (C : Ctx) (progs : Tid → List Stmt) : Sys :=
   { env := {}, thr := fun t => Prog.bind (program C (progs t) {}) fun _ => .done () }
 
-theorem initSys_inv (rank : LockId → Nat) (N : Nat) (C : Ctx) (progs : Tid → List Stmt)
-    (hok : ∀ t, ProgOK (some rank) C (progs t)) (hidle : ∀ t, N ≤ t → progs t = []) :
-    SysInv rank N (initSys C progs) (fun _ => {}) where
+theorem initSys_inv (ro : RankOpt) (N : Nat) (C : Ctx) (progs : Tid → List Stmt)
+    (hok : ∀ t, ProgOK ro C (progs t)) (hidle : ∀ t, N ≤ t → progs t = []) :
+    SysInv ro N (initSys C progs) (fun _ => {}) where
   code t := by
     simp only [initSys]
     rw [wp_bind]
@@ -31,7 +32,7 @@ theorem C01_deadlock_free (pol : Policy) (rank : LockId → Nat) (N : Nat) (C : 
     (hidle : ∀ t, N ≤ t → progs t = []) (s : Sys) (hr : Reachable pol (initSys C progs) s)
     (hns : ∀ t, s.thr t ≠ .spin ∧ s.thr t ≠ .abort) (hrun : ∃ t, s.running t) :
     ∃ t, s.running t ∧ ¬ s.blocked pol t := by
-  obtain ⟨H, hi⟩ := reachable_inv pol (initSys_inv rank N C progs hok hidle) hr
+  obtain ⟨H, hi⟩ := reachable_inv pol (initSys_inv (some rank) N C progs hok hidle) hr
   exact no_deadlock pol hi hns hrun
 
 -- @theorem C01_rank_discipline_holds_for_valid_flat_collections : the hypothesis of C01_deadlock_free is met with rank = address by every session on a collection that its checked constructor accepts and that contains no owned group (any mix and nesting of boxed, ref, retrying, poisonable, tuples/vectors, both modes, all API flavours)
@@ -53,7 +54,7 @@ theorem C01_no_thread_waits_for_itself (pol : Policy) (rank : LockId → Nat) (C
     · exact hok
     · intro st hst; cases hst
   obtain ⟨H, hi⟩ := reachable_inv pol
-    (initSys_inv rank 1 C _ hok' (fun t ht => by
+    (initSys_inv (some rank) 1 C _ hok' (fun t ht => by
       have : t ≠ 0 := fun h => by rw [h] at ht; exact absurd ht (by decide)
       simp [this])) hr
   obtain ⟨t, ht, hnb⟩ := no_deadlock pol hi hns ⟨0, hrun⟩
@@ -66,10 +67,45 @@ theorem C01_no_thread_waits_for_itself (pol : Policy) (rank : LockId → Nat) (C
   exact hnb
 
 -- @theorem C01_system_invariant_is_preserved : (the engine of the proof) the invariant — each thread's remaining code obeys the hold and rank discipline from its ghost state, and the ghost states are exactly the holders recorded in the lock table, waiting writers are really waiting — is preserved by every step of every thread under either policy
-theorem C01_system_invariant_is_preserved (pol : Policy) (rank : LockId → Nat) (N : Nat) {s s' : Sys}
-    {H : Tid → HG} (hi : SysInv rank N s H) (t : Tid) (hs : s.step pol t = some s') :
-    ∃ H', SysInv rank N s' H' :=
+theorem C01_system_invariant_is_preserved (pol : Policy) (ro : RankOpt) (N : Nat) {s s' : Sys}
+    {H : Tid → HG} (hi : SysInv ro N s H) (t : Tid) (hs : s.step pol t = some s') :
+    ∃ H', SysInv ro N s' H' :=
   hi.step pol t hs
+
+theorem parInit_toSys (C : Ctx) (progs : List (List Stmt)) :
+    (parInit C progs).toSys = initSys C (fun t => progs.getD t []) := by
+  simp only [ParSt.toSys, parInit, initSys]
+  congr 1
+  funext t
+  simp only [List.getElem?_map, List.getD_eq_getElem?_getD]
+  cases progs[t]? with
+  | none => simp [program, Prog.bind, Prog.bindX]
+  | some p => simp
+
+-- @theorem C01_t2_replay_is_a_run_of_the_semantics : the executable replay of a T2 schedule (Model/Par.lean, the model side of the real-thread correspondence) is, turn by turn, a sequence of Sys.step transitions from the initial system: every state the replay visits is Reachable, so the system invariant and deadlock freedom proved for Reachable states apply to exactly the runs that are compared with the real threads
+theorem C01_t2_replay_is_a_run_of_the_semantics (C : Ctx) (progs : List (List Stmt)) (sched : List Nat)
+    (s' : ParSt) (h : (parInit C progs).runSched sched = .ok s') :
+    Reachable .readerPref (initSys C (fun t => progs.getD t [])) s'.toSys := by
+  rw [← parInit_toSys]
+  exact runSched_reachable sched _ s' (by simp [parInit]) h
+
+-- @theorem C01_t2_replay_never_ends_in_deadlock : consequently, for programs obeying the rank discipline, no replayed schedule of any length ends in a state where some thread has work left and every such thread waits for a lock: a `deadlock` transcript of the real threads can never be matched by the model
+theorem C01_t2_replay_never_ends_in_deadlock (rank : LockId → Nat) (C : Ctx) (progs : List (List Stmt))
+    (hok : ∀ p ∈ progs, ProgOK (some rank) C p) (sched : List Nat) (s' : ParSt)
+    (h : (parInit C progs).runSched sched = .ok s')
+    (hns : ∀ t, s'.toSys.thr t ≠ .spin ∧ s'.toSys.thr t ≠ .abort) (hrun : ∃ t, s'.toSys.running t) :
+    ∃ t, s'.toSys.running t ∧ ¬ s'.toSys.blocked .readerPref t := by
+  have hok' : ∀ t, ProgOK (some rank) C (progs.getD t []) := by
+    intro t
+    simp only [List.getD_eq_getElem?_getD]
+    cases hp : progs[t]? with
+    | none => intro st hst; cases hst
+    | some p => exact hok p (List.mem_of_getElem? hp)
+  have hidle : ∀ t, progs.length ≤ t → progs.getD t [] = [] := by
+    intro t ht
+    simp [List.getD_eq_getElem?_getD, List.getElem?_eq_none ht]
+  exact C01_deadlock_free .readerPref rank progs.length C _ hok' hidle _
+    (C01_t2_replay_is_a_run_of_the_semantics C progs sched s' h) hns hrun
 
 /-! non-vacuity: two threads taking the same two locks through differently listed collections -/
 def exC01 : Ctx :=
